@@ -54,6 +54,8 @@ def scenarios(ctx):
             w["two_bams"] = True
         if rng.random() < 0.1:
             w, o = bridge_world(rng), {"tag": rng.choice(["PS", "HP"]), "max_coverage": rng.choice([1, 1, 2])}
+        elif rng.random() < 0.08:
+            w, o = cutlink_world(rng), {"tag": rng.choice(["PS", "HP"])}
         w["opts"] = o
         if rng.random() < 0.3:
             PW.add_decoys(rng, w)          # unusable alignments with arbitrary alleles, non-default --mapping-quality
@@ -61,12 +63,36 @@ def scenarios(ctx):
             w["stale_phase"] = rng.choice(["PS", "HP"])    # the input VCF already carries unrelated phase statements
         if rng.random() < 0.3:
             w["gt_desc"] = True                            # unphased heterozygous genotypes written 1/0
+        if rng.random() < 0.15:
+            w["first_at_zero"] = True                      # the first site on the first base of its contig
         if rng.random() < 0.2:
             w["phase_vcf"] = True                          # a phased VCF (true haplotypes, blocks) as an additional phase input
         if ns == 1 and rng.random() < 0.15:
             o["ignore_rg"] = True          # --ignore-read-groups: read groups absent or naming somebody else
         scs.append({"world": w})
     return scs
+
+
+def cutlink_world(rng):
+    """A heterozygous deletion (3 deleted bases) whose link to its left neighbour rests mainly on reads of the haplotype WITHOUT
+    the deletion that end one or two bases inside the deleted stretch."""
+    n = rng.randint(2, 4)
+    d = rng.randint(1, n - 1)                      # index of the deletion site; sites left of it are SNVs
+    sites = [{"kind": "snv", "len": 1} for _ in range(n)]
+    sites[d] = {"kind": "del", "len": 3}
+    truth = [rng.choice([[0, 1], [1, 0]]) for _ in range(n)]
+    refhap = truth[d].index(0)
+    reads = [{"sample": "s1", "chrom": 0, "hap": refhap, "first": rng.randint(0, d - 1), "last": d, "gap": None, "cut": rng.choice([1, 2]),
+              "copies": rng.randint(2, 3)}]
+    if rng.random() < 0.5:
+        reads.append({"sample": "s1", "chrom": 0, "hap": 1 - refhap, "first": rng.randint(0, d - 1), "last": d, "gap": None, "copies": 1})
+    for h in (0, 1):                               # the rest of the block, left of the deletion and right of it
+        if d >= 2:
+            reads.append({"sample": "s1", "chrom": 0, "hap": h, "first": 0, "last": d - 1, "gap": None, "copies": 1})
+        if d < n - 1:
+            reads.append({"sample": "s1", "chrom": 0, "hap": h, "first": d, "last": n - 1, "gap": None, "copies": 1})
+    return {"seed": rng.randrange(10 ** 6), "chroms": [{"name": "chr1", "sites": sites}], "samples": ["s1"], "truth": {"s1": [truth]},
+            "reads": reads, "errfree": True, "ped": []}
 
 
 def bridge_world(rng):
